@@ -18,6 +18,8 @@ structure Params where
   minFee : Int      -- MinTransactionFee
   /-- `CRCOnlyDPOSHeight`: the irreversibility guard is off at or below it -/
   guardFrom : Nat := 1000000
+  /-- `CheckRewardHeight`: below it `checkTxsContext` only logs a wrong coinbase amount -/
+  checkRewardFrom : Nat := 0
 deriving Repr
 
 /-- one unspent output -/
@@ -118,7 +120,7 @@ def blockValid (P : Params) (L : Ledger) (b : Block) : Bool :=
   | [] => false
   | cb :: rest =>
     rest.all (txValid P L (b.height - 1)) &&
-    sumOuts cb - (rest.map (feeOf L)).foldl (· + ·) 0 == P.reward
+    (b.height < P.checkRewardFrom || sumOuts cb - (rest.map (feeOf L)).foldl (· + ·) 0 == P.reward)
 
 /-! ### transaction pool (mempool/txpool.go + netsync event handler) -/
 
